@@ -78,7 +78,9 @@ def judge(y, ref, exact, check_dtype, out=None):
                 c = res
                 if kind == "coll" and (c.name != name0 or c.__dask_keys__() != keys0):
                     return ("identity-changed", ename, f"{ename} returned a collection named {c.name}, x is {name0}")
-                if c.chunks != chunks0 and not any(isinstance(s, float) and s != s for dim in chunks0 for s in dim):
+                # (the property promises name/chunks/dtype for persisted and
+                # dask-optimized collections; x.optimize() only promises values)
+                if kind == "coll" and c.chunks != chunks0 and not any(isinstance(s, float) and s != s for dim in chunks0 for s in dim):
                     return ("identity-changed", ename + ":chunks", f"{ename} returned chunks {c.chunks}, x has {chunks0}")
                 if c.dtype != dtype0:
                     return ("identity-changed", ename + ":dtype", f"{ename} returned dtype {c.dtype}, x has {dtype0}")
